@@ -122,6 +122,8 @@ CHECKS = {
              '(3) translation validation: the TEXT of every sampled generated function (cse on/off, graded on/off, 20 operators) is read back '
              'into a straight-line program and shown inside Coq to compute the model operator for all inputs in every commutative ring '
              '(validation on polynomial indeterminates + naturality); cse inlining is sound for well-scoped assignments.  '
+             'The same for generated code that divides (inv, div, d <= 5): fraction evaluation on indeterminates, cross-multiplied against the '
+             'closed-form numerator / denominator of the inverse model; for all operands the text raises ZeroDivisionError or returns the model inverse.  '
              'wrapper / func_builder-vs-lambdify stay printer glue: differential check of all 16 option combinations against default '
              'options, graded results against the model evaluated in Coq.',
         technique='Rocq proof (naturality; list/dictionary reasoning for the graded completion) + translation validation of generated code (SLP on polynomial indeterminates, vm_compute) + differential option-matrix correspondence',
